@@ -20,7 +20,7 @@ corr():        model <-> implementation: the Lean model (KawinV.SaveLoad with th
                each keyword alone / positional / positional extras) + random calls, the argument the thermodynamics method
                received under each name compared with what the caller supplied, and the Lean model of the forwarding line
                (KawinV.Forward, rows of the generated table) run on the same calls; (b) untrained and partially trained
-               MulticomponentSurrogate of Al-Mg-Si (5 precipitate phases), every phase, exact equality; trained surrogates at
+               MulticomponentSurrogate of Al-Mg-Si (5 precipitate phases), every phase: exactly the value of the one call made, rtol 1e-6 against an independent call; trained surrogates at
                their training points; surrogates rebuilt from their JSON file.
                SAVE/LOAD HISTORIES in one process (check_histories): random sequences of solve / save / load on 2-3 REUSED file
                names (with and without the .npz suffix), several live models (the original and every loaded one, solved further and
@@ -56,7 +56,7 @@ ASSUMPTIONS = [
     'phase names of one model are distinct',
     'finite array contents; array dtype (finalTime may be saved as int64) is not modelled, values are compared as doubles',
     'argument forwarding is observed on a recording mock thermodynamics with marker values (non-default value for every parameter; phases PREC2 / PREC3 of a 4-phase mock) and, on the real Al-Mg-Si system, on a spy around the real object; extra positional arguments are taken to follow the documented order: the getter own parameters, then the remaining parameters of the thermodynamics method',
-    'the untrained getter must return the very object the thermodynamics call of the same name returned (checked by identity); an independent second thermodynamics call (removeCache=True) is compared with rtol 1e-6 only: two pycalphad evaluations of the same point agree to the minimiser tolerance (1e-12 typical, 6e-10 seen in a precipitate composition)',
+    'the untrained getter must return exactly what the thermodynamics call it made returned (same object, or the same shapes / dtypes / entries), having made exactly one call of the method of the same name with the caller\'s arguments; an independent second thermodynamics call (removeCache=True) is compared with rtol 1e-6 only: two pycalphad evaluations of the same point agree to the minimiser tolerance (1e-12 typical, 6e-10 seen in a precipitate composition, 1e-8 in Al-Mg-Si curvature factors)',
 ]
 TRUSTED = ['np.savez_compressed / np.load / dict(NpzFile) semantics as modelled in KawinV.SaveLoad (compared on every run)',
            'json.dump / json.load number printing and parsing', 'SciPy RBFInterpolator']
@@ -1149,18 +1149,48 @@ def deep_same(a, b):
     return same(a, b)
 
 
-def deep_close(a, b, rtol):
+# absolute floors (in units of rtol) for fields whose natural scale is 1 whatever their actual magnitude: `gba` of a curvature output is
+# the dimensionless matrix inv(d2G_beta/dx2) * d2G_alpha/dx2; for a near-stoichiometric precipitate d2G_beta is huge and the product
+# is round-off noise of order 1e-14 (the rank test in MultiTherm.curvatureFactor decides between exactly 0 and that noise), so two
+# independent evaluations agree in it only absolutely, not relatively
+UNIT_SCALE_FIELDS = {'gba': 1.0}
+
+
+def deep_close(a, b, rtol, floor=0.0, unit_fields=False):
+    """agreement of two independent evaluations: |a - b| <= rtol * max(|b|, 1e-6 * largest |b| of the array, floor);
+    unit_fields: the fields named in UNIT_SCALE_FIELDS get their absolute floor"""
     if a is None or b is None:
         return a is None and b is None
+    if unit_fields and hasattr(a, '_fields') and hasattr(b, '_fields'):        # namedtuple outputs (CurvatureOutput, GrowthRateOutput)
+        return all(deep_close(getattr(a, k), getattr(b, k), rtol, UNIT_SCALE_FIELDS.get(k, 0.0), True) for k in a._fields)
     if isinstance(a, (tuple, list)) and not isinstance(a, np.ndarray):
-        return len(a) == len(b) and all(deep_close(x, y, rtol) for x, y in zip(a, b))
+        return len(a) == len(b) and all(deep_close(x, y, rtol, floor, unit_fields) for x, y in zip(a, b))
     if hasattr(a, '__dict__') and not isinstance(a, np.ndarray):
-        return all(deep_close(getattr(a, k), getattr(b, k), rtol) for k in vars(a))
+        return all(deep_close(getattr(a, k), getattr(b, k), rtol, UNIT_SCALE_FIELDS.get(k, 0.0) if unit_fields else floor, unit_fields) for k in vars(a))
     a = np.asarray(a, dtype=float); b = np.asarray(b, dtype=float)
     if a.shape != b.shape:
         return False
     sc = float(np.max(np.abs(b))) if b.size else 0.0
-    return bool(np.all(np.abs(a - b) <= rtol * np.maximum(np.abs(b), sc * 1e-6) + 1e-300))
+    return bool(np.all(np.abs(a - b) <= rtol * np.maximum(np.maximum(np.abs(b), sc * 1e-6), floor) + 1e-300))
+
+
+def deep_identical(a, b):
+    """the same VALUE exactly: same nesting, same classes, arrays of the same shape and dtype with identical entries"""
+    if a is b:
+        return True
+    if a is None or b is None:
+        return False
+    if isinstance(a, (tuple, list)) and not isinstance(a, np.ndarray):
+        return type(a) is type(b) and len(a) == len(b) and all(deep_identical(x, y) for x, y in zip(a, b))
+    if hasattr(a, '__dict__') and not isinstance(a, np.ndarray):
+        return type(a) is type(b) and set(vars(a)) == set(vars(b)) and all(deep_identical(getattr(a, k), getattr(b, k)) for k in vars(a))
+    if isinstance(a, np.ndarray) or isinstance(b, np.ndarray) or isinstance(a, np.generic) or isinstance(b, np.generic):
+        a2, b2 = np.asarray(a), np.asarray(b)
+        return a2.shape == b2.shape and a2.dtype == b2.dtype and a2.dtype != object and bool(np.array_equal(a2, b2, equal_nan=(a2.dtype.kind in 'fc')))
+    try:
+        return type(a) is type(b) and bool(a == b)
+    except Exception:
+        return False
 
 
 def untrained_calls(kind, rng):
@@ -1427,11 +1457,88 @@ def phase_kind(th, ph, which='prec'):
     return 'matrix-named' if i == 0 else 'non-matrix-phase'
 
 
+def multiphase_probe(res, th, s, spy, base, stage, g, args, kw, kind):
+    """one getter call on an untrained (for this phase) surrogate whose thermodynamics is the recording proxy `spy` around `th`.
+    EXACT: the surrogate made exactly one call of thermodynamics.<g>, with the phase / removeCache / searchDir the caller gave, and
+    returned exactly the value that call returned.  TOLERANT: an INDEPENDENT second evaluation by the thermodynamics (made first, on
+    the bare object) agrees to rtol 1e-6 - two pycalphad evaluations of one point are not bit-reproducible (warm-started minimiser:
+    5e-12 .. 1e-8 relative seen in dc / mc / beta / c_eq_alpha), but a surrogate answering for another phase or point is far off."""
+    cls, cname = type(s), type(s).__name__
+    x, T = base['x'], base['T']
+    desc = dict(base, stage=stage, getter=g, keywords={k: (v if isinstance(v, (str, bool, type(None))) else np.asarray(v).tolist()) for k, v in kw.items()}, trained=stage,
+                args=[np.asarray(a).tolist() for a in args], phase_class=kind)
+    del spy.calls[:]
+    with warnings.catch_warnings():
+        warnings.simplefilter('ignore')
+        with _quiet():
+            ref = getattr(th, g)(*args, **kw)
+            out = getattr(s, g)(*args, **kw)
+    res.case(('multiphase', stage, g, kw.get('precPhase', kw.get('phase')), float(x[0]), T), True)
+    res.count('multiphase:%s:%s' % (g, kind))
+    res.count('multiphase-output:' + ('None' if out is None else 'value'))
+    called = [c[0] for c in spy.calls]
+    if called != [g]:
+        res.violate('untrained-%s.%s-calls-%s' % (cname, g, '+'.join(called) or 'nothing'),
+                    'the untrained branch calls thermodynamics.%s, not thermodynamics.%s once' % ('/'.join(called) or 'nothing', g), desc, observed=called, required=[g])
+    else:
+        _n, a, k, r = spy.calls[0]
+        bound, err = bind_thermo(cls, g, a, k)
+        if err is not None:
+            res.violate('untrained-%s.%s-forwarded-call-does-not-bind' % (cname, g), 'forwarded call does not bind: %s' % ' '.join(err), desc)
+        else:
+            for n, v in kw.items():
+                want = v
+                if v is None and 'phase' in n.lower():
+                    want = resolved_default(n, None, list(th.phases))
+                got = bound.get(n, EMPTY)
+                if got is EMPTY and v is not None:
+                    res.violate('untrained-%s.%s-drops-argument-%s' % (cname, g, n),
+                                'the caller supplied %s=%s; thermodynamics.%s did not receive it and uses its default' % (n, tokof(v) if isinstance(v, (str, bool)) else 'array', g),
+                                desc, observed='not received', required=desc['keywords'][n])
+                elif got is not EMPTY and not (got is want or same_arg_or_eq(got, want)):
+                    res.violate('untrained-%s.%s-changes-argument-%s' % (cname, g, n),
+                                'the caller supplied %s; thermodynamics.%s received another value' % (n, g), desc,
+                                observed=got if isinstance(got, (str, bool, type(None))) else brief(got), required=desc['keywords'][n])
+        res.count('multiphase-result:' + ('the-object-the-thermodynamics-returned' if out is r else 'equal-value'))
+        if not deep_identical(out, r):
+            res.violate('untrained-%s.%s-does-not-return-the-thermodynamics-result' % (cname, g),
+                        'the result is not exactly (shapes, dtypes, every entry) what the thermodynamics call made by the getter returned', desc,
+                        observed=show_out(out), required=show_out(r))
+    exact = deep_same(out, ref)
+    close6 = deep_close(out, ref, 1e-6, unit_fields=True)
+    res.count('multiphase-vs-independent-direct-call:' + ('bit-identical' if exact else 'within-1e-6' if close6 else 'DIFFERENT'))
+    if not close6:
+        res.violate('untrained-%s.%s-differs-from-thermodynamics-%s' % (cname, g, kind),
+                    'untrained %s.%s(%s) is not what an independent call of thermodynamics.%s gives for the same arguments (rtol 1e-6)'
+                    % (cname, g, ', '.join('%s=%s' % (k, desc['keywords'][k]) for k in kw if 'hase' in k), g),
+                    desc, observed=show_out(out), required=show_out(ref))
+
+
+def replay_multiphase(res, case):
+    """one recorded case of check_untrained_multiphase on a surrogate on which nothing is trained"""
+    vlib.use_repo()
+    from kawin.thermo import MulticomponentSurrogate
+    CLASSES['MulticomponentSurrogate'] = MulticomponentSurrogate
+    th = almgsi_therm()
+    spy = ArgSpy(th)
+    s = MulticomponentSurrogate(spy)
+    g = case['getter']
+    base = {k: case[k] for k in ('thermodynamics', 'surrogate', 'x', 'T', 'R', 'gExtra') if k in case}
+    def arr(v):
+        return np.array(v, dtype=float) if isinstance(v, list) else v
+    if 'args' in case:
+        args = tuple(arr(a) for a in case['args'])
+    else:
+        args = (np.array(case['x'], dtype=float), case['T'])
+    kw = {k: arr(v) for k, v in case.get('keywords', {}).items()}
+    multiphase_probe(res, th, s, spy, base, case.get('stage', 'nothing trained'), g, args, kw, case.get('phase_class') or phase_kind(th, kw.get('precPhase')))
+
+
 def check_untrained_multiphase(res, rng, quick=True):
     """Al-Mg-Si, five precipitate phases: every getter of an untrained and of a partially trained MulticomponentSurrogate, for
     the default phase and every named precipitate phase, against the thermodynamics method of the same quantity called with
-    the same arguments: same phase / flags received (recorded on the real object), same object returned, and exact equality
-    with an independent direct call (removeCache=True on both sides: no state is carried between the two evaluations)"""
+    the same arguments: exactly one call of the same method, same phase / flags received (recorded on the real object), exactly
+    the value of that call returned; an independent direct call agrees to rtol 1e-6 (see multiphase_probe)"""
     vlib.use_repo()
     from kawin.thermo import MulticomponentSurrogate
     cls, cname = MulticomponentSurrogate, 'MulticomponentSurrogate'
@@ -1448,49 +1555,9 @@ def check_untrained_multiphase(res, rng, quick=True):
     getters = surrogate_getters(cls)
 
     def one(stage, g, args, kw, kind, trained_here):
-        desc = dict(base, stage=stage, getter=g, keywords={k: (v if isinstance(v, (str, bool, type(None))) else np.asarray(v).tolist()) for k, v in kw.items()}, trained=stage)
         if trained_here:
             res.count('multiphase-skipped-trained:' + g); return
-        del spy.calls[:]
-        with warnings.catch_warnings():
-            warnings.simplefilter('ignore')
-            with _quiet():
-                ref = getattr(th, g)(*args, **kw)
-                out = getattr(s, g)(*args, **kw)
-        res.case(('multiphase', stage, g, kw.get('precPhase', kw.get('phase')), float(x[0]), T), True)
-        res.count('multiphase:%s:%s' % (g, kind))
-        res.count('multiphase-output:' + ('None' if out is None else 'value'))
-        called = [c[0] for c in spy.calls]
-        if called != [g]:
-            res.violate('untrained-%s.%s-calls-%s' % (cname, g, '+'.join(called) or 'nothing'),
-                        'the untrained branch calls thermodynamics.%s, not thermodynamics.%s once' % ('/'.join(called) or 'nothing', g), desc, observed=called, required=[g])
-        else:
-            _n, a, k, r = spy.calls[0]
-            bound, err = bind_thermo(cls, g, a, k)
-            if err is not None:
-                res.violate('untrained-%s.%s-forwarded-call-does-not-bind' % (cname, g), 'forwarded call does not bind: %s' % ' '.join(err), desc)
-            else:
-                for n, v in kw.items():
-                    want = v
-                    if v is None and 'phase' in n.lower():
-                        want = resolved_default(n, None, list(th.phases))
-                    got = bound.get(n, EMPTY)
-                    if got is EMPTY and v is not None:
-                        res.violate('untrained-%s.%s-drops-argument-%s' % (cname, g, n),
-                                    'the caller supplied %s=%s; thermodynamics.%s did not receive it and uses its default' % (n, tokof(v) if isinstance(v, (str, bool)) else 'array', g),
-                                    desc, observed='not received', required=desc['keywords'][n])
-                    elif got is not EMPTY and not (got is want or same_arg_or_eq(got, want)):
-                        res.violate('untrained-%s.%s-changes-argument-%s' % (cname, g, n),
-                                    'the caller supplied %s; thermodynamics.%s received another value' % (n, g), desc,
-                                    observed=got if isinstance(got, (str, bool, type(None))) else brief(got), required=desc['keywords'][n])
-            if out is not r:
-                res.violate('untrained-%s.%s-does-not-return-the-thermodynamics-result' % (cname, g), 'result is not the object the thermodynamics call returned', desc)
-        exact = deep_same(out, ref)
-        res.count('multiphase-vs-direct-call:' + ('bit-identical' if exact else 'DIFFERENT'))
-        if not exact:
-            res.violate('untrained-%s.%s-differs-from-thermodynamics-%s' % (cname, g, kind),
-                        'untrained %s.%s(%s) is not what thermodynamics.%s returns for the same arguments' % (cname, g, ', '.join('%s=%s' % (k, desc['keywords'][k]) for k in kw if 'hase' in k), g),
-                        desc, observed=show_out(out), required=show_out(ref))
+        multiphase_probe(res, th, s, spy, base, stage, g, args, kw, kind)
 
     def sweep(stage, trainedDF=(), trainedCurv=()):
         phs = [None] + precs
@@ -2178,11 +2245,15 @@ def rel_err(out, want):
                 a = a.reshape(b.shape)
             else:
                 return float('inf')
-        if not np.all(np.isfinite(a)):
+        if not b.size:
+            continue
+        same_special = (np.isnan(a) & np.isnan(b)) | (np.isinf(a) & np.isinf(b) & (a == b))     # the same inf / nan on both sides is agreement
+        fin = np.isfinite(a) & np.isfinite(b)
+        if not np.all(fin | same_special):
             return float('inf')
-        sc = float(np.max(np.abs(b))) if b.size else 0.0
-        if b.size:
-            worst = max(worst, float(np.max(np.abs(a - b) / np.maximum(np.maximum(np.abs(b), sc * 1e-6), 1e-300))))
+        if np.any(fin):
+            sc = float(np.max(np.abs(b[fin])))
+            worst = max(worst, float(np.max(np.abs(a[fin] - b[fin]) / np.maximum(np.maximum(np.abs(b[fin]), sc * 1e-6), 1e-300))))
     return worst
 
 
@@ -2460,9 +2531,9 @@ def run_orders_case(res, ctx, th, spec, tmp, lines=None, pending=None):
     for q in qs:
         s1 = make_surrogate(cls, memo, spec['kernel'])
         with _quiet():
-            ok, _ = _guard(res, 'surrogate-train-alone:%s' % q, 'train only %s' % q, dict(base, history=[q]), lambda: train_quantity(s1, q, train[q]))
+            ok, _ = _guard(res, 'surrogate-train-alone:%s' % q, 'train only %s' % q, dict(base, calls=[['train', q]]), lambda: train_quantity(s1, q, train[q]))
         if ok:
-            ok, out = _guard(res, 'surrogate-query-alone:%s' % q, 'query %s' % q, dict(base, history=[q]), lambda: predict(s1, q, qpts[q]))
+            ok, out = _guard(res, 'surrogate-query-alone:%s' % q, 'query %s' % q, dict(base, calls=[['train', q]]), lambda: predict(s1, q, qpts[q]))
             if ok:
                 alone[q] = out
     hists = [list(p) for p in itertools.permutations(qs)] + ([list(p) for p in itertools.permutations(qs, 2)] if len(qs) > 2 else [])
@@ -2473,7 +2544,7 @@ def run_orders_case(res, ctx, th, spec, tmp, lines=None, pending=None):
             if i and rng.random() < 0.3:
                 ops.append(('query', rng.choice(order[:i + 1])))             # a getter call between two trainings
         oclass = 'axes-' + '>'.join(str(axes[q]) for q in order)
-        desc = dict(base, history=[list(o) for o in ops], order_class=oclass)
+        desc = dict(base, calls=[list(o) for o in ops], order_class=oclass)
         s = make_surrogate(cls, memo, spec['kernel'])
         flags, failed = [], False
         for op, q in ops:
@@ -2732,11 +2803,13 @@ def replay(ctx, entry):
         with warnings.catch_warnings():
             warnings.simplefilter('ignore')
             np.seterr(all='ignore')
-            if case.get('history'):
+            if case.get('history') is True and 'cfg' in case:
                 cfg = dict(case['cfg'])
                 if isinstance(cfg.get('x0'), list):
                     cfg['x0'] = tuple(cfg['x0'])
                 guarded(res, [], 'saveload-history', dict(case), lambda: run_history(res, ctx, tmp, case['kind'], cfg, [tuple(o) for o in case['ops']]))
+            elif case.get('surrogate') == 'MulticomponentSurrogate' and 'stage' in case and case.get('stage') == 'nothing trained' and 'getter' in case:
+                guarded(res, [], 'untrained-multiphase-case', dict(case), lambda: replay_multiphase(res, case))
             elif case.get('check') == 'training-grid':
                 th = kwnruns.therm_binary() if case['system'] == 'binary' else kwnruns.therm_ternary()
                 guarded(res, [], 'surrogate-training-grid-case', dict(case), lambda: run_grid_case(res, th, case))
